@@ -608,3 +608,8 @@ impl OutQuery {
         ret.map_err(super::Error::OutReply)
     }
 }
+
+#[cfg(feature = "isomer_erbium_verif")]
+mod isomer_erbium_verif {
+    include!(concat!(env!("ISOMER_ERBIUM_VERIF_DIR"), "/dns_outquery.rs"));
+}
